@@ -100,6 +100,9 @@ func NewVirtualISO(fs afero.Fs, root string, ps3Mode bool) (*VirtualISO, error) 
 		root += string(os.PathSeparator)
 	}
 
+	// volume is named after the directory, whatever way (trailing separator, "/.") it was spelled
+	root = filepath.Clean(root)
+
 	ret := &VirtualISO{
 		fs:        fs,
 		root:      root,
